@@ -51,8 +51,8 @@ def main():
             e["replay_cmd_template"] = "./check %s --replay {path}" % i
             e["level_claimed"]["category"] = "proof"
             e["level_claimed"]["design_ref"] = "DESIGN.md section 11.2 (as built) and section 6 (plan), %s" % i
-            if len(e.get("technique", "")) < 40:
-                e["technique"] = TECH.get(i, e.get("technique", ""))
+            if i in TECH:
+                e["technique"] = TECH[i]
             checks.append(e)
         else:
             na.append({"property_id": i, "reason": UNCLAIMED.get(i, "check not yet sound/complete in this round; not claimed")})
